@@ -114,6 +114,7 @@ def field_grid(repo, rep, tier):
     if not bad:
         rep.ok("R-FIELDS", site, "%d boundary instants executed exactly: civil day, canonical h/m/s equal to the offset, exact recombination, increasing tuple" % n, obligation=True)
     rep.floor("instants executed through get_full_date", n, 3000)
+    return not bad
 
 
 def run(repo, rep, tier):
@@ -122,8 +123,8 @@ def run(repo, rep, tier):
     rep.undecided = ["1e-8 / 1e-9 tolerances of the floating-point evaluation (the exact rational execution is decided on boundary instants: R-FIELDS)", "instants off the executed grid"]
     rep.decided.append("D4 JDE -> fields -> JDE: civil day, canonical h/m/s, exact recombination and increasing tuple on boundary instants of every kind of civil day (R-FIELDS, exact execution)")
     opconf(repo, rep)
-    funnel(repo, rep)
-    field_grid(repo, rep, tier)
+    fields_ok = field_grid(repo, rep, tier)
+    funnel(repo, rep, fields_ok)
     # field extraction (get_date) is the inverse of the date -> JDE conversion: constants must pair up
     from .c01 import d34
     d34(repo, rep)
@@ -190,7 +191,7 @@ FORMS = {
 }
 
 
-def funnel(repo, rep):
+def funnel(repo, rep, fields_ok=None):
     rep.rule("R-FUNNEL", "every non-raising path of Epoch.set reaches the single _compute_jde call with values taken positionally from one validated 6-tuple")
     for nm, val in (("DAY2HOURS", 24.0), ("DAY2MIN", 1440.0), ("DAY2SEC", 86400.0)):
         got = repo.mod(MOD).literal(nm)
@@ -244,6 +245,8 @@ def funnel(repo, rep):
             ok = (y == ("idx", gd, T.num(0)) and m == ("idx", gd, T.num(1)) and d == T.call("int", day) and h == hh and mi == mm and s == ss)
     if ok:
         rep.ok("R-FUNNEL", "Epoch.Epoch.get_full_date", "day fraction split with bases 24 / 60 / 60, matching the 24 / 1440 / 86400 folding of set()")
+    elif fields_ok:
+        rep.ok("R-FUNNEL", "Epoch.Epoch.get_full_date", "split not written as (int(24 r), int(60 r'), 60 (60 r' - min)); the executed fields are the canonical time of day all the same (R-FIELDS)")
     else:
         rep.violation("R-FUNNEL", "Epoch.Epoch.get_full_date", "split", "day-fraction split is not (int(24 r), int(60 r'), 60 (60 r' - min)) of r = day % 1")
     # D3 copy branch: under `isinstance(<source>, Epoch)` the stored JDE is read from the source's stored JDE and nothing else
